@@ -187,3 +187,115 @@ Example expand_ewf_applies :
   expand 5 ex_cx [ENode KLeaf [x7a] no_props [] []] [ex_uses] =
   Ok ([ENode KLeaf [x7a] no_props [] []] ++ ex_X).
 Proof. split; vm_compute; reflexivity. Qed.
+
+(** ** Every compile output satisfies [ewf_list] too (config inheritance, the sort of [canon] and
+    the accessor view [norm] keep the invariant) *)
+From Coq Require Import Permutation.
+From YV Require Import Schemac.CasePerm.
+
+Theorem compile_modset_ewf : forall fuel ms t,
+  compile_modset fuel ms = Ok t -> ewf_list false [] t = true.
+Proof. exact compile_modset_ewf_proof. Qed.
+Print Assumptions compile_modset_ewf.
+
+(** ** compile_deterministic.  The Go code keeps the cases of a choice in a map; the model keeps
+    textual order and sorts in [canon].  [msrel ms ms'] (Schemac/CasePerm.v): the two module sets
+    are equal up to permuting the members of ANY of their choices (at any depth, in data
+    definitions, groupings, augments, submodules and imported modules; [sperm] is the statement
+    level relation, reflexive and symmetric).  A successful compilation does not depend on that
+    order; the whole outcome is the same as soon as neither side runs out of fuel.
+
+    The full statement (equal outcomes for every fuel) is false of the model for an artificial
+    reason: with too little fuel the first failing case decides between [Err] and [OutOfFuel]
+    ([compile_deterministic_full_refuted]). *)
+Theorem compile_deterministic_partial : forall fuel ms ms' t, msrel ms ms' ->
+  (compile_modset fuel ms = Ok t <-> compile_modset fuel ms' = Ok t).
+Proof. exact compile_deterministic_iff_proof. Qed.
+Print Assumptions compile_deterministic_partial.
+
+Theorem compile_deterministic_fueled : forall fuel ms ms', msrel ms ms' ->
+  compile_modset fuel ms <> OutOfFuel -> compile_modset fuel ms' <> OutOfFuel ->
+  compile_modset fuel ms' = compile_modset fuel ms.
+Proof. exact compile_deterministic_fueled_proof. Qed.
+Print Assumptions compile_deterministic_fueled.
+
+(** the relation contains what the task asks for: the cases of one choice permuted *)
+Theorem sperm_permutes_cases : forall n p keys grps kids kids', Permutation kids kids' ->
+  sperm (SNode KChoice n p keys grps kids) (SNode KChoice n p keys grps kids').
+Proof. exact sperm_choice_perm. Qed.
+
+Theorem sperm_reflexive : forall s, sperm s s.            Proof. exact sperm_refl. Qed.
+Theorem sperm_symmetric : forall s s', sperm s s' -> sperm s' s.  Proof. exact sperm_sym. Qed.
+Theorem msrel_symmetric : forall ms ms', msrel ms ms' -> msrel ms' ms.  Proof. exact msrel_sym. Qed.
+
+(** the expansion stage alone: related sources in related contexts give trees equal up to the
+    order of choice members ([lrel false] = pointwise [eperm]) *)
+Theorem expand_case_order : forall f cx cx' ss ss' acc acc' out,
+  crel cx cx' -> Forall2 sperm ss ss' -> Forall2 eperm acc acc' ->
+  ewf_list false [] acc = true -> expand f cx acc ss = Ok out ->
+  exists out', expand f cx' acc' ss' = Ok out' /\ Forall2 eperm out out'.
+Proof.
+  intros f cx cx' ss ss' acc acc' out Hc Hs Ha Hw H.
+  destruct (expand_rel f cx cx' Hc ss ss' acc acc' false out Hs (proj2 (lrel_false _ _) Ha)
+              eq_refl Hw H) as [out' [E R]].
+  exists out'. split; auto. now apply lrel_false.
+Qed.
+Print Assumptions expand_case_order.
+
+(** satisfiable, non-trivially: module m { grouping g { choice c { case y { leaf q; } leaf x; } }
+      container t { uses g { refine c/y/q { config false; } } }  choice z { leaf b; leaf a; } }
+    against the same text with the members of both choices swapped *)
+Definition lf (n : text) : stmt := SNode KLeaf n no_props [] [] [].
+Definition dcy : stmt := SNode KCase [x79] no_props [] [] [lf [x71]].
+Definition dms (gk zk : list stmt) : modset :=
+  mkModset (mkModule [x6d] [x6d]
+    [SGrouping [x67] [] [SNode KChoice [x63] no_props [] [] gk]]
+    [SNode KCont [x74] no_props [] []
+       [SUses None [x67] None [mkRefine [[x63]; [x79]; [x71]] [] [] (Some false) None None None []] []];
+     SNode KChoice [x7a] no_props [] [] zk] []) [] [].
+
+Example compile_deterministic_applies :
+  msrel (dms [dcy; lf [x78]] [lf [x62]; lf [x61]]) (dms [lf [x78]; dcy] [lf [x61]; lf [x62]]) /\
+  (exists t, compile_modset 8 (dms [dcy; lf [x78]] [lf [x62]; lf [x61]]) = Ok t /\
+             compile_modset 8 (dms [lf [x78]; dcy] [lf [x61]; lf [x62]]) = Ok t /\
+             ewf_list false [] t = true).
+Proof.
+  split.
+  - split; [|split; constructor]. unfold mrel, dms. cbn. repeat split.
+    + constructor; [|constructor]. apply sp_grouping; [constructor|].
+      constructor; [|constructor]. apply sperm_choice_perm. apply perm_swap.
+    + constructor; [apply sperm_refl|]. constructor; [|constructor].
+      apply sperm_choice_perm. apply perm_swap.
+    + constructor.
+  - eexists. split; [vm_compute; reflexivity|]. split; vm_compute; reflexivity.
+Qed.
+
+Definition compile_deterministic_full_statement : Prop :=
+  forall fuel ms ms', msrel ms ms' -> compile_modset fuel ms' = compile_modset fuel ms.
+
+(** choice z { case a { leaf x; leaf x; }  case b { container c { container d { leaf e; } } } }
+    with fuel 4: the duplicate in [a] is an error, [b] is too deep — whichever comes first wins *)
+Definition cd_dup : stmt := SNode KCase [x61] no_props [] [] [lf [x78]; lf [x78]].
+Definition cd_deep : stmt :=
+  SNode KCase [x62] no_props [] []
+    [SNode KCont [x63] no_props [] [] [SNode KCont [x64] no_props [] [] [lf [x65]]]].
+Definition cd_ms (kids : list stmt) : modset :=
+  mkModset (mkModule [x6d] [x6d] [] [SNode KChoice [x7a] no_props [] [] kids] []) [] [].
+
+Example compile_deterministic_fuel_counterexample :
+  compile_modset 4 (cd_ms [cd_dup; cd_deep]) = Err /\
+  compile_modset 4 (cd_ms [cd_deep; cd_dup]) = OutOfFuel /\
+  compile_modset 6 (cd_ms [cd_dup; cd_deep]) = Err /\
+  compile_modset 6 (cd_ms [cd_deep; cd_dup]) = Err.
+Proof. repeat split; vm_compute; reflexivity. Qed.
+
+Theorem compile_deterministic_full_refuted : ~ compile_deterministic_full_statement.
+Proof.
+  intro H. specialize (H 4 (cd_ms [cd_dup; cd_deep]) (cd_ms [cd_deep; cd_dup])).
+  assert (R : msrel (cd_ms [cd_dup; cd_deep]) (cd_ms [cd_deep; cd_dup])).
+  { split; [|split; constructor]. unfold mrel, cd_ms. cbn. repeat split; try constructor.
+    - apply sperm_choice_perm. apply perm_swap.
+    - constructor. }
+  apply H in R. vm_compute in R. discriminate.
+Qed.
+Print Assumptions compile_deterministic_full_refuted.
